@@ -102,13 +102,16 @@ class WireChopManager(WireManagerBase):
 
         super().update()
 
-    def grade(self) -> None:
-        self.update()
-
-        # start afresh: grade() can be called repeatedly (mesh written twice)
+    def reset(self) -> None:
+        # start afresh: grade() can be called repeatedly (mesh written twice);
+        # until then nobody must copy what is left from the previous time
         self.grading.specification = []
         for wire in self.wires:
             wire.grading.specification = []
+
+    def grade(self) -> None:
+        self.update()
+        self.reset()
 
         # Create a proper Grading from chops
         for chop in self.chops:
